@@ -32,7 +32,10 @@ import (
 	"github.com/ozontech/seq-db/frac/processor"
 	"github.com/ozontech/seq-db/fracmanager"
 	"github.com/ozontech/seq-db/logger"
+	"github.com/ozontech/seq-db/mappingprovider"
+	pbapi "github.com/ozontech/seq-db/pkg/storeapi"
 	"github.com/ozontech/seq-db/seq"
+	sapi "github.com/ozontech/seq-db/storeapi"
 
 	"verifharness/internal/vh"
 )
@@ -63,8 +66,13 @@ func raceChild(args []string) {
 	bulksPer := fs.Int("bulks", 40, "")
 	fracSize := fs.Uint64("fracsize", 3000, "")
 	dir := fs.String("dir", "", "")
+	inmem := fs.Bool("inmem", false, "")
 	fs.Parse(args)
 	logger.SetLevel(zap.FatalLevel)
+	if *inmem {
+		inmemChild(*seed, *dir, *bulksPer)
+		return
+	}
 	conf.IndexWorkers = 4
 	conf.SkipFsync = true
 	fm := fracmanager.NewFracManager(&fracmanager.Config{DataDir: *dir, FracSize: *fracSize, TotalSize: 1 << 40, CacheSize: 1 << 26,
@@ -275,6 +283,140 @@ func raceChild(args []string) {
 	_ = frac.Info{}
 }
 
+// inmemChild: the write path of single mode - the in-memory store client, called the way the bulk ingestor calls it:
+// Bulk returns, the caller's pooled buffer is reused for the next request's metas.  One index worker and a big first
+// bulk keep later bulks waiting in the indexer queue.  Then the quiescent comparison.
+func inmemChild(seed int64, dir string, nbulks int) {
+	conf.IndexWorkers = 1
+	conf.SkipFsync = true
+	out := raceOut{}
+	add := func(class, what string) {
+		if len(out.Findings) < 20 {
+			out.Findings = append(out.Findings, finding2{class, what})
+		}
+	}
+	done := func() {
+		b, _ := json.Marshal(out)
+		fmt.Println("RESULT " + string(b))
+	}
+	fm := fracmanager.NewFracManager(&fracmanager.Config{DataDir: dir, FracSize: 1 << 30, TotalSize: 1 << 40, CacheSize: 1 << 26,
+		ShouldReplay: false, MaintenanceDelay: time.Hour})
+	if err := fm.Load(context.Background()); err != nil {
+		add("harness", "load failed")
+		done()
+		return
+	}
+	fm.Start()
+	mp, err := mappingprovider.New("", mappingprovider.WithMapping(seq.TestMapping))
+	if err != nil {
+		add("harness", err.Error())
+		done()
+		return
+	}
+	client := sapi.VerifC07InMemoryClient(fm, mp, filepath.Join(dir, "async"))
+	rng := vh.NewRNG(seed)
+	var all []doc
+	var bulks []*bulk
+	mk := func(k, n int) {
+		var ds []doc
+		for j := 0; j < n; j++ {
+			var toks []int
+			for t := 0; t < 3; t++ {
+				if rng.Chance(1, 2) {
+					toks = append(toks, t)
+				}
+			}
+			ds = append(ds, mkDoc(k, j, uint64(1000+k), uint64(k*100000+j+1), toks))
+		}
+		bulks = append(bulks, mkBulk(ds))
+		all = append(all, ds...)
+	}
+	mk(0, 30000) // keeps the only index worker busy
+	for k := 1; k <= nbulks; k++ {
+		mk(k, rng.Range(1, 40))
+	}
+	maxLen := 0
+	for _, b := range bulks {
+		maxLen = max(maxLen, len(b.metaB))
+	}
+	buf := make([]byte, maxLen) // the caller's reusable buffer (the ingestor's pooled compressor)
+	for _, b := range bulks {
+		m := buf[:len(b.metaB)]
+		copy(m, b.metaB)
+		if _, err := client.Bulk(context.Background(), &pbapi.BulkRequest{Count: int64(len(b.docs)), Docs: b.docsB, Metas: m}); err != nil {
+			add("append-error", err.Error())
+		}
+		out.Bulks++
+	}
+	out.Docs = len(all)
+	deadline := time.Now().Add(20 * time.Second)
+	for time.Now().Before(deadline) {
+		total := 0
+		for _, f := range fm.GetAllFracs() {
+			total += int(f.Info().DocsTotal)
+		}
+		if total >= len(all) {
+			break
+		}
+		time.Sleep(5 * time.Millisecond)
+	}
+	searcher := fracmanager.NewSearcher(4, fracmanager.SearcherCfg{})
+	fetcher := fracmanager.NewFetcher(4)
+	byID := map[seq.ID]doc{}
+	for _, d := range all {
+		byID[d.id()] = d
+	}
+	for _, qs := range []string{"T0", "T1", "N.T2", "A.T0.N.T1"} {
+		q, _, _ := parseQuery(strings.Split(qs, "."))
+		ast, _ := q.ast()
+		qpr, err := searcher.SearchDocs(context.Background(), fm.GetAllFracs(), processor.SearchParams{AST: ast, From: 0, To: 1 << 40, Limit: 1 << 22, Order: seq.DocsOrderDesc})
+		out.Final++
+		if err != nil {
+			add("search-error", fmt.Sprintf("query %s: %v", qs, err))
+			continue
+		}
+		got := map[seq.ID]bool{}
+		var ids []seq.IDSource
+		for _, x := range qpr.IDs {
+			d, ok := byID[x.ID]
+			switch {
+			case !ok:
+				add("search-unknown-id", fmt.Sprintf("query %s returned %v", qs, x.ID))
+			case !q.sat(d):
+				add("quiescent-extra", fmt.Sprintf("query %s returned %s with tokens %v", qs, d.idStr(), d.toks))
+			default:
+				if !got[x.ID] && len(ids) < 256 {
+					ids = append(ids, x)
+				}
+			}
+			got[x.ID] = true
+		}
+		for _, d := range all {
+			if q.sat(d) && !got[d.id()] {
+				add("quiescent-missing", fmt.Sprintf("query %s: acknowledged %s (bulk sent through the in-memory client) not returned after the writers went idle", qs, d.idStr()))
+				break
+			}
+		}
+		if len(ids) > 0 {
+			bodies, err := fetcher.FetchDocs(context.Background(), fm.GetAllFracs(), ids)
+			out.Fetches++
+			if err != nil {
+				add("fetch-error", fmt.Sprintf("fetch of ids returned by query %s: %v", qs, err))
+				continue
+			}
+			for i := range ids {
+				if i >= len(bodies) || string(bodies[i]) != string(byID[ids[i].ID].body) {
+					add("fetch-after-search", fmt.Sprintf("id %s returned by a search could not be fetched with its bytes", byID[ids[i].ID].idStr()))
+					break
+				}
+			}
+		}
+	}
+	out.Fractions = len(fm.GetAllFracs())
+	fm.Stop()
+	done()
+}
+
 var raceFrame = regexp.MustCompile(`(?m)^\s+(github\.com/ozontech/seq-db/\S+)\(\)$`)
 
 func runRace(rep *vh.Report, o vh.Opts, replayLine string) {
@@ -302,25 +444,39 @@ func runRace(rep *vh.Report, o vh.Opts, replayLine string) {
 		orc.Error = "cannot build the -race child: " + err.Error() + ": " + lastLines(string(outb), 5)
 		return
 	}
-	type cfg struct{ seed, writers, searchers, bulks, fracsize int }
+	type cfg struct {
+		seed, writers, searchers, bulks, fracsize int
+		inmem                                     bool
+	}
 	var cfgs []cfg
 	if replayLine != "" {
 		var c cfg
-		fmt.Sscanf(replayLine, "race seed=%d writers=%d searchers=%d bulks=%d fracsize=%d", &c.seed, &c.writers, &c.searchers, &c.bulks, &c.fracsize)
+		if strings.HasPrefix(replayLine, "race inmem ") {
+			fmt.Sscanf(replayLine, "race inmem seed=%d bulks=%d", &c.seed, &c.bulks)
+			c.inmem = true
+		} else {
+			fmt.Sscanf(replayLine, "race seed=%d writers=%d searchers=%d bulks=%d fracsize=%d", &c.seed, &c.writers, &c.searchers, &c.bulks, &c.fracsize)
+		}
 		cfgs = append(cfgs, c)
 	} else {
 		n := o.Pick(4, 16)
 		for i := 0; i < n; i++ {
-			cfgs = append(cfgs, cfg{int(o.Seed)*100 + i, 2 + i%4, 2 + (i/2)%4, o.Pick(150, 400), []int{600, 1500, 4000}[i%3]})
+			cfgs = append(cfgs, cfg{seed: int(o.Seed)*100 + i, writers: 2 + i%4, searchers: 2 + (i/2)%4, bulks: o.Pick(150, 400), fracsize: []int{600, 1500, 4000}[i%3]})
+		}
+		for i := 0; i < o.Pick(1, 3); i++ { // the single-mode write path (in-memory store client, reused metas buffer)
+			cfgs = append(cfgs, cfg{seed: int(o.Seed)*100 + i, bulks: o.Pick(60, 200), inmem: true})
 		}
 	}
 	seenRace := map[string]bool{}
 	for _, c := range cfgs {
 		line := fmt.Sprintf("race seed=%d writers=%d searchers=%d bulks=%d fracsize=%d", c.seed, c.writers, c.searchers, c.bulks, c.fracsize)
+		if c.inmem {
+			line = fmt.Sprintf("race inmem seed=%d bulks=%d", c.seed, c.bulks)
+		}
 		dir, _ := os.MkdirTemp("", "c07-race-")
 		ctx, cancel := context.WithTimeout(context.Background(), 240*time.Second)
 		ch := exec.CommandContext(ctx, bin, "race-child", "-seed", fmt.Sprint(c.seed), "-writers", fmt.Sprint(c.writers), "-searchers", fmt.Sprint(c.searchers),
-			"-bulks", fmt.Sprint(c.bulks), "-fracsize", fmt.Sprint(c.fracsize), "-dir", dir)
+			"-bulks", fmt.Sprint(c.bulks), "-fracsize", fmt.Sprint(c.fracsize), "-dir", dir, fmt.Sprintf("-inmem=%v", c.inmem))
 		ch.Env = append(os.Environ(), "GORACE=halt_on_error=0 exitcode=66")
 		var stderr strings.Builder
 		ch.Stderr = &stderr
@@ -336,7 +492,11 @@ func runRace(rep *vh.Report, o vh.Opts, replayLine string) {
 				gotResult = json.Unmarshal([]byte(strings.TrimPrefix(sc.Text(), "RESULT ")), &res) == nil
 			}
 		}
-		orc.Case(line, res.Overlaps > 0, fmt.Sprintf("writers=%d", c.writers), fmt.Sprintf("searchers=%d", c.searchers))
+		if c.inmem {
+			orc.Case(line, res.Bulks > 1, "path=in-memory-client")
+		} else {
+			orc.Case(line, res.Overlaps > 0, fmt.Sprintf("writers=%d", c.writers), fmt.Sprintf("searchers=%d", c.searchers))
+		}
 		orc.Distribution["searches"] += res.Searches
 		orc.Distribution["searches.during.append"] += res.Overlaps
 		orc.Distribution["fetches"] += res.Fetches
@@ -367,7 +527,11 @@ func runRace(rep *vh.Report, o vh.Opts, replayLine string) {
 			if err != nil {
 				what += ": " + err.Error()
 			}
-			rep.Violate(vh.Violation{Site: "fracmanager/fracmanager.go", Class: "workload-crash", What: what + " | " + lastLines(se, 15), Replay: []string{line}})
+			site := "fracmanager/fracmanager.go"
+			if c.inmem {
+				site = "storeapi/client.go:Bulk"
+			}
+			rep.Violate(vh.Violation{Site: site, Class: "workload-crash", What: what + " | " + lastLines(se, 15), Replay: []string{line}})
 			continue
 		}
 		seen := map[string]bool{}
@@ -376,7 +540,11 @@ func runRace(rep *vh.Report, o vh.Opts, replayLine string) {
 				continue
 			}
 			seen[f.Class] = true
-			rep.Violate(vh.Violation{Site: siteOf(f.Class), Class: f.Class, What: "workload: " + f.What, Replay: []string{line}})
+			site := siteOf(f.Class)
+			if c.inmem && site == "fracmanager/proxy_frac.go" {
+				site = "storeapi/client.go:Bulk"
+			}
+			rep.Violate(vh.Violation{Site: site, Class: f.Class, What: "workload: " + f.What, Replay: []string{line}})
 		}
 	}
 }
